@@ -376,6 +376,10 @@ class ModuleVistor(NodeVisitor):
         _localNameToFullName = self.builder.current._localNameToFullName_map
         expandName = mod.expandName
         for name in names:
+            # If we're importing from a package, make sure imported modules
+            # are processed (getProcessedModule() ignores non-modules).
+            if isinstance(mod, model.Package):
+                self.system.getProcessedModule(f'{modname}.{name}')
 
             if self._handleReExport(exports, name, name, mod) is True:
                 continue
